@@ -1372,7 +1372,14 @@ impl<'a> DriverState<'a> {
         // a job that left the ready set without being started
         for j in self.ready_prev.iter() {
             if !ready.contains(j) && !out.started.contains(j) {
-                self.viol(out, "C17", "offer-withdrawn", format!("{} left the ready set without being started", gv.jobs[*j].id));
+                // the only legitimate withdrawal: the job became upstream-failed (a failure reached
+                // it through an already skipped job) - the statement does not forbid that
+                let s = state_of.get(gv.jobs[*j].id.as_str()).map(|s| s.code).unwrap_or(99);
+                if s != vs::ST_UPSTREAM_FAILURE {
+                    self.viol(out, "C17", "offer-withdrawn", format!("{} left the ready set without being started (state code {})", gv.jobs[*j].id, s));
+                } else {
+                    probe(&mut out.probes, "offer_withdrawn_by_upstream_failure");
+                }
             }
         }
         self.ready_prev = ready;
